@@ -471,6 +471,11 @@ class C14(Property):
                 elif r < 0.45:
                     for g in genes[cut:]:
                         g["strand"] = -strand
+                elif r < 0.65:
+                    # a gene with hits but no module of its own: only docking / COM domains
+                    dock = [(self.cls(rng, "ignore"), []) for _ in range(rng.choice([1, 1, 2]))]
+                    genes.insert(cut, {"name": "dock", "strand": strand, "region": 0, "motifs": rng.random() < 0.3,
+                                       "domains": self.place(rng, dock, scramble=False)})
             else:
                 for i in range(n):
                     g = self.gene(rng, f"g{i}", strand if rng.random() < 0.85 else -strand, 6,
